@@ -244,13 +244,10 @@ def runJudge (body : List String) : List String :=
     | _ => none
   let has (w : String) := input.any fun l => l.startsWith w
   -- a case without its set-up lines is not an observation about C18 (keeps the shrinker honest)
-  let napply := (input.filter fun l => l.startsWith "apply ").length
-  let nload := (exps.filter fun e => e.phase == "load").length
-  -- every source file the records name must be written by the case itself
+  -- every source file the records name must be written by the case itself (the simul_efun object is part of the mudlib)
   let named := exps.flatMap fun e => [e.file, e.program] ++ e.trace.flatMap fun t => [t.file, t.prog]
-  let missing := named.any fun n => n != "" && !(has ("file /" ++ n ++ " "))
-  if missing || (has "load " && !has "file ") || (!exps.isEmpty && exps.length ≠ napply + nload) ||
-     (!exps.isEmpty && !(has "load " && has "file " && (has "apply " || exps.any fun e => e.phase == "load"))) then
+  let missing := named.any fun n => n != "" && !n.startsWith "c18/simul_efun" && !(has ("file /" ++ n ++ " "))
+  if missing || (has "load " && !has "file ") || (!exps.isEmpty && !has "load ") then
     ["bad setup incomplete-case"] else
   match judgeEv exps (impl.map parseObs) with
   | [] => ["ok"]
